@@ -2,45 +2,9 @@
 //       AES-CBC equals SP 800-38A for all key sizes and families; dec inverts enc.
 #include "../common/aes_engine.hpp"
 
-typedef void (*cbc_dec_fn)(void *in, uint8_t *iv, uint8_t *keys, void *out, uint64_t len);
-typedef int (*cbc_enc_fn)(void *in, uint8_t *iv, uint8_t *keys, void *out, uint64_t len);
-typedef int (*cbc_ifn)(const void *in, const void *iv, const void *keys, void *out, uint64_t len);
-
-enum { OP_KEYEXP = 0, OP_ENC = 1, OP_DEC = 2 };
-struct Ent {
-        int op, bits;
-        std::string fam;
-        void *fn;
-        bool api;
-        bool runnable;
-        std::string label() const { return std::string(op == OP_KEYEXP ? "keyexp" : op == OP_ENC ? "cbc_enc" : "cbc_dec") + std::to_string(bits) + "/" + fam; }
-};
+using namespace ae::cbc;
 static std::vector<Ent> g_ents;
-
-static void discover()
-{
-        for (int bits : { 128, 192, 256 }) {
-                std::string b = std::to_string(bits);
-                auto add = [&](int op, const std::string &fam, const std::string &symname, bool api, bool runnable) {
-                        void *p = isal::sym(symname);
-                        if (p) g_ents.push_back(Ent{ op, bits, fam, p, api, runnable });
-                };
-                bool aes = isal::cpu().aesni;
-                add(OP_KEYEXP, "sse", "_aes_keyexp_" + b + "_sse", false, aes && isal::cpu().sse41);
-                add(OP_KEYEXP, "avx", "_aes_keyexp_" + b + "_avx", false, aes && isal::cpu().avx);
-                add(OP_KEYEXP, "legacy", "aes_keyexp_" + b, false, aes);
-                add(OP_KEYEXP, "isal", "isal_aes_keyexp_" + b, true, aes);
-                add(OP_ENC, "x4", "_aes_cbc_enc_" + b + "_x4", false, aes && isal::cpu().sse41);
-                add(OP_ENC, "x8", "_aes_cbc_enc_" + b + "_x8", false, aes && isal::cpu().sse41);
-                add(OP_ENC, "legacy", "aes_cbc_enc_" + b, false, aes);
-                add(OP_ENC, "isal", "isal_aes_cbc_enc_" + b, true, aes);
-                add(OP_DEC, "sse", "_aes_cbc_dec_" + b + "_sse", false, aes && isal::cpu().sse41);
-                add(OP_DEC, "avx", "_aes_cbc_dec_" + b + "_avx", false, aes && isal::cpu().avx);
-                add(OP_DEC, "vaes_avx512", "_aes_cbc_dec_" + b + "_vaes_avx512", false, aes && isal::host_can_run("vaes_avx512"));
-                add(OP_DEC, "legacy", "aes_cbc_dec_" + b, false, aes);
-                add(OP_DEC, "isal", "isal_aes_cbc_dec_" + b, true, aes);
-        }
-}
+static void discover_ents() { g_ents = ae::cbc::discover(); }
 
 struct Case {
         std::string ent;
@@ -163,7 +127,7 @@ int main(int argc, char **argv)
         pbt::Prop<Case> P;
         P.id = "C04";
         P.setup = [](pbt::Ctx &ctx) {
-                discover();
+                discover_ents();
                 for (auto &e : g_ents)
                         if (!e.runnable) ctx.notes.push_back("entry skipped (host cannot execute it): " + e.label());
                 if (g_ents.empty()) { fprintf(stderr, "HARNESS-ERROR: no AES entry found\n"); exit(3); }
